@@ -104,7 +104,7 @@ PART_PATTERNS = {
     'PPPP'       : r"\d{4,}",
     'PPPPP'      : r"\d{5,}",
     'bid'        : r"\d{4,}",
-    'BID'        : r"[1-9]\d*",
+    'BID'        : r"(?:0|[1-9]\d*)",
     'BB'         : r"[1-9]\d{1,}",
     'BBB'        : r"[1-9]\d{2,}",
     'BBBB'       : r"[1-9]\d{3,}",
